@@ -929,6 +929,10 @@ def iteration(ip, it):
             if all(isinstance(x, C) for x in (a, b, s)):
                 return ('concrete', [C(x) for x in range(a.py, b.py, s.py)])
             at, bt = int_term(ip, a), int_term(ip, b)
+            if isinstance(s, C) and isinstance(s.py, int) and s.py > 1:
+                st = s.py
+                return ('symbolic', lambda h: z3.If(bt > at, (bt - at + (st - 1)) / st, z3.IntVal(0)),
+                        lambda h, k: norm(ip, I(at + k * st)))
             if not (isinstance(s, C) and s.py in (1, -1)):
                 raise OutOfReach('symbolic range with step other than +-1')
             if s.py == 1:
